@@ -43,6 +43,13 @@ def scenarios(ctx, rend):
         # the error text is data, not a format: per cent signs in it change nothing about "one diagnostic line"
         ("throw-percent-end", "println(1)\nthrow \"done 100%\""), ("throw-percent-verbs", "throw \"%s %d %v %\""), ("throw-percent-mid", "println(1)\nthrow \"50% done\""),
         ("parse-error-percent", "x = \"%d\" +"), ("undefined-percent", "println(1)\nm = {\"%d%\": 1}\nm[\"%d%\"].zz.y()"),
+        # the builtins that look at the script's own scope see the script's globals, as in the library run
+        ("defined-own-global", "x = 1\nprintln(defined(\"x\"))\nif !defined(\"x\") { throw \"own global not seen by defined()\" }"),
+        ("defined-in-func", "func f() { return defined(\"y\") }\ny = 2\nprintln(f())\nprintln(defined(\"nosuch\"))"),
+        ("defined-args", "println(defined(\"args\"))"),
+        # a script that handles the interrupt signal itself runs its own shutdown path, as it does under vm.Execute
+        ("sigint-self", "os = import(\"os\")\nsignal = import(\"os/signal\")\ntime = import(\"time\")\nc = make(chan os.Signal, 1)\nsignal.Notify(c, os.Interrupt)\nprintln(\"serving\")\n"
+                        "p, err = os.FindProcess(os.Getpid())\np.Signal(os.Interrupt)\ns = <-c\nprintln(\"got\", s)\ntime.Sleep(200000000)\nprintln(\"clean shutdown\")"),
         ("div-zero", "println(1 % 0)"), ("deep-error", "func f() { return g() }\nfunc g() { throw \"deep\" }\nprintln(0)\nf()"),
     ]
     scripts += [("sp-" + n, s) for n, s in special]
